@@ -1,8 +1,153 @@
+import NaijaVerif.Model.Protocol
+import NaijaVerif.Gen.Protocol
 import NaijaVerif.Driver.Util
-/-! Family `cli` — stub (replaced by the unit that owns this family). -/
+
+/-! Line protocol `cli` (C14).  One request per line, one answer per line.
+```
+cli <file|eval|stdin> <p> <re> <rt> <hex src>  -> code=<n>         exit status the ladder of cmd.rs gives for
+                                                                 p parser diagnostics, re error-level checker
+                                                                 diagnostics, rt error-level runtime diagnostics
+cli <mode> x x x <hex src>                     -> code=panic       (the library pipeline panicked: outside the model)
+exit <p> <re> <rt>                             -> code=<n>
+seq <hex1>|<hex2>|…                            -> n=<2k> end=<o0>:<o1>,…   offsets of the two scratch arenas after each of
+                                                                 the 2k playground runs (the sequence is run twice)
+proto <cli|wasm|wrongframe|resafter|described> -> safe | unsafe    the decidable check on the extracted wiring
+H                                              -> off=0:0          start a history on the real S_SCRATCH: drop
+                                                                 every guard, arena::init
+b <v> <none|w>                                 -> ix=<0|1> saved=<off> | rebound | unbound
+a <v> <bytes> <align>                          -> beg=<off> off=<off> | panic | unbound
+m <v>                                          -> mark=<off> | panic | unbound
+r <v> <k>                                      -> off=<off> | panic | badmark | unbound
+d <v>                                          -> off=<o0>:<o1> | abort | unbound
+i                                              -> off=<o0>:<o1>    arena::init (only requested with no guard alive)
+o                                              -> off=<o0>:<o1>
+```
+-/
 namespace NaijaVerif.Driver.CliD
+open NaijaVerif.Scratch NaijaVerif.Driver
+
+/-- `exit status` by the extracted ladder. -/
+def exitOf (p re rt : Nat) : Nat :=
+  exitCodeBy Gen.Protocol.cliExitRules Gen.Protocol.cliExitDefault
+    { parseDiags := p, parseErrors := p, resolveDiags := re, resolveErrors := re, runDiags := rt, runErrors := rt }
+
+def offs (sc : Scratch) : String := s!"off={sc.s0.offset}:{sc.s1.offset}"
+
+/-- One playground run in the model: the longest path of the extracted wiring, every phase
+allocating 24 bytes through each of its guards, reading the offset and resetting to it. -/
+def fillPath (p : List ProtoOp) : List FOp :=
+  p.map fun
+    | .init => .init
+    | .borrow v c => .borrow v c
+    | .release v => .release v
+    | .work uses => .work uses (uses.map (fun v => WorkOp.alloc v 24 8))
+
+def longest (ps : List (List ProtoOp)) : List ProtoOp :=
+  ps.foldl (fun best p => if p.length > best.length then p else best) []
+
+def wrongFrame : List SrcOp :=
+  Gen.Protocol.cliProtocol.map (fun op => if op = .letScratch 2 (some 0) then .letScratch 2 none else op)
+
+def resAfter : List SrcOp :=
+  Gen.Protocol.cliProtocol.flatMap (fun op => if op = .letScratch 2 (some 0) then [op, .work [1]] else [op])
+
+def described : List SrcOp :=
+  [.init, .letScratch 0 none, .work [0], .open, .letScratch 1 (some 0), .work [0, 1], .exit, .close,
+   .letScratch 2 (some 0), .work [0, 2], .exit]
+
+def faultName : Fault → String
+  | .unbound => "unbound"
+  | .rebound => "rebound"
+  | .stale => "panic"
+  | .dropOrder => "abort"
+  | .badMark => "badmark"
+
+def count (s : String) (c : Char) : Nat := (s.toList.filter (· == c)).length
+
+def step (st : St) (line : String) : St × String :=
+  match words line with
+  | ["cli", _, "x", "x", "x", _] => (st, "code=panic")
+  | ["cli", _, p, re, rt, _] =>
+      match p.toNat?, re.toNat?, rt.toNat? with
+      | some p, some re, some rt => (st, s!"code={exitOf p re rt}")
+      | _, _, _ => (st, "bad-op")
+  | ["exit", p, re, rt] =>
+      match p.toNat?, re.toNat?, rt.toNat? with
+      | some p, some re, some rt => (st, s!"code={exitOf p re rt}")
+      | _, _, _ => (st, "bad-op")
+  | ["seq", progs] =>
+      let k := 2 * (count progs '|' + 1)
+      let ops := flatOps (fillPath (longest (paths Gen.Protocol.wasmProtocol)))
+      let rec go (n : Nat) (s : St) (acc : List String) : St × List String :=
+        match n with
+        | 0 => (s, acc.reverse)
+        | n + 1 =>
+          match run true s ops with
+          | .ok s' => go n s' (s!"{s'.sc.s0.offset}:{s'.sc.s1.offset}" :: acc)
+          | .error e => (s, (faultName e :: acc).reverse)
+      let (s', outs) := go k (St.start st.sc) []
+      (s', s!"n={k} end={",".intercalate outs}")
+  | ["proto", name] =>
+      let src : Option (List SrcOp) :=
+        match name with
+        | "cli" => some Gen.Protocol.cliProtocol
+        | "wasm" => some Gen.Protocol.wasmProtocol
+        | "wrongframe" => some wrongFrame
+        | "resafter" => some resAfter
+        | "described" => some described
+        | _ => none
+      match src with
+      | some s => (st, if protocolSafe s then "safe" else "unsafe")
+      | none => (st, "bad-op")
+  | ["H"] =>
+      let s := (St.start st.sc).doInit
+      (s, offs s.sc)
+  | ["i"] => let s := st.doInit; (s, offs s.sc)
+  | ["o"] => (st, offs st.sc)
+  | ["b", v, c] =>
+      match v.toNat?, (if c = "none" then some none else c.toNat?.map some) with
+      | some v, some c =>
+          match st.doBorrow v c with
+          | .ok s =>
+              match s.env.lookup v with
+              | some b => (s, s!"ix={b.ix.toNat} saved={b.saved}")
+              | none => (s, "bad-op")
+          | .error e => (st, faultName e)
+      | _, _ => (st, "bad-op")
+  | ["a", v, bytes, align] =>
+      match v.toNat?, bytes.toNat?, align.toNat? with
+      | some v, some bytes, some align =>
+          match st.doAlloc true v bytes align with
+          | .ok s =>
+              match s.blocks.head?, s.env.lookup v with
+              | some blk, some b => (s, s!"beg={blk.beg} off={(s.sc.get b.ix).offset}")
+              | _, _ => (s, "bad-op")
+          | .error e => (st, faultName e)
+      | _, _, _ => (st, "bad-op")
+  | ["m", v] =>
+      match v.toNat? with
+      | some v =>
+          match st.doMark true v with
+          | .ok s => (s, match s.marks.getLast? with | some (_, m) => s!"mark={m}" | none => "bad-op")
+          | .error e => (st, faultName e)
+      | none => (st, "bad-op")
+  | ["r", v, k] =>
+      match v.toNat?, k.toNat? with
+      | some v, some k =>
+          match st.doReset true v k with
+          | .ok s => (s, match s.env.lookup v with | some b => s!"off={(s.sc.get b.ix).offset}" | none => "bad-op")
+          | .error e => (st, faultName e)
+      | _, _ => (st, "bad-op")
+  | ["d", v] =>
+      match v.toNat? with
+      | some v =>
+          match st.doRelease true v with
+          | .ok s => (s, offs s.sc)
+          | .error e => (st, faultName e)
+      | none => (st, "bad-op")
+  | _ => (st, "bad-op")
 
 def main : IO Unit := do
-  IO.eprintln "family cli: not built yet"
+  loop (← IO.getStdin) (← IO.getStdout) (St.start Scratch.empty) step
 
 end NaijaVerif.Driver.CliD
